@@ -70,12 +70,9 @@ FIXED = [
  "fixed: property=C13 f041534 AssertionError Allocation exceeds staging limit (scheduler.use_fast_storage_for_feature_maps) when the tensors that cannot leave fast storage alone exceed a small --arena-cache-size, e.g. RESIZE / TRANSPOSE / CONCATENATION network on ethos-u55-64 with --arena-cache-size 12957 (findings/FX-staging-limit-assertion.C13.json)",
  "fixed: property=C01 6aec2b8 PAD ; AVERAGE_POOL_2D with a fused RELU-family activation (explicit padding, converted to a depthwise convolution with the zero point in the bias and OFM zero point 0): the clamp was computed without the zero point, RELU cut at code 0 instead of at the zero point (findings/FX-pad-avgpool-relu-clamp.C01.json)",
  "fixed: property=C11 f662831 (was known finding F12) a RESIZE whose output size equals its input size was removed as Identity and its output tensor replaced by the input tensor: a network output was published under another name (findings/FX-F12-identity-resize-renames-output.C11.json)",
+ "fixed: property=C13 68691cf (was known finding F07) PAD ; MEAN over H and W: the explicit padding was fused into the depthwise convolution MEAN had been lowered to, whose read offset/shape refer to the padded tensor; AssertionError in tensor.address_for_coordinate (findings/FX-F07-pad-then-mean.C13.json)",
 ]
 EXTRA = [
- dict(id="F07-pad-then-mean", property="C13", status="known",
-      signature={"oracle": "internal_exception", "exc_type": "AssertionError", "site": "tensor.py:address_for_coordinate"}, requires_layers=["PAD", "MEAN"],
-      what="PAD followed by MEAN over H and W: the explicit padding is fused into the depthwise/pool operator MEAN is lowered to, whose IFM box is then computed for the padded extent and address_for_coordinate asserts",
-      example="findings/F07-pad-then-mean.C13.json"),
  dict(id="F19-non-default-allocator-exceeds-arena-cache", property="C02", status="known",
       signature={"oracle": "fast_scratch_exceeds_arena_cache", "rounding_only": False, "min_schedule_also_exceeds": False},
       requires_any=["OPT_ALLOC_Greedy", "OPT_ALLOC_LinearAlloc"],
